@@ -11,8 +11,9 @@ Text form (one token, for case lines):  pass '/' pass ;  rule ';' rule ;  pre '~
 import struct
 
 OP = dict(PUSH_BYTE=1, PUSH_SHORT=3, NEXT=25, COPY_NEXT=27, PUT_GLYPH8=28, PUT_SUBS8=29, PUT_COPY=30, INSERT=31, DELETE=32, ASSOC=33, CNTXT_ITEM=34, ATTR_SET=35,
-          ATTR_SET_SLOT=38, POP_RET=48, RET_ZERO=49, RET_TRUE=50, PUSH_SLOT_ATTR=40, EQUAL=19, LESS=21, GTR=22)
-SLAT_ADVX, SLAT_SHIFTX, SLAT_SHIFTY, SLAT_ATTTO, SLAT_ATTX, SLAT_ATTY, SLAT_WITHX, SLAT_WITHY = 0, 20, 21, 2, 3, 4, 8, 9
+          ATTR_SET_SLOT=38, POP_RET=48, RET_ZERO=49, RET_TRUE=50, PUSH_SLOT_ATTR=40, EQUAL=19, LESS=21, GTR=22, PUSH_ISLOT_ATTR=46, IATTR_SET=51)
+SLAT_ADVX, SLAT_SHIFTX, SLAT_SHIFTY, SLAT_ATTTO, SLAT_ATTX, SLAT_ATTY, SLAT_WITHX, SLAT_WITHY, SLAT_USER = 0, 20, 21, 2, 3, 4, 8, 9, 55
+NUM_USER = 2
 
 
 # ------------------------------------------------------------------ text form
@@ -28,10 +29,12 @@ def prog_to_text(prog):
         if a[0] == 'T': return 'T%d' % a[1]
         if a[0] == 'P': return 'P%d_%d' % (a[1], a[2])
         if a[0] == 'W': return 'W%d_%d' % (a[1], a[2])
+        if a[0] == 'C': return 'C%d' % a[1]
+        if a[0] == 'U': return 'U%d_%d' % (a[1], a[2])
         raise ValueError(a)
     def con(r):
         c = r.get('con')
-        return ('~c%d%s%d' % (c[0], c[1], c[2]) if c else '') + ('~r%d' % r['ret'] if r.get('ret') else '')
+        return ('~c%d%s%d%s' % (c[0], c[1], c[2], 'u%d' % c[3] if len(c) > 3 and c[3] is not None else '') if c else '') + ('~r%d' % r['ret'] if r.get('ret') else '')
     return '/'.join('%d:' % p.get('maxloop', 5) + ';'.join('%d~%s~%s%s' % (r['pre'], ','.join('.'.join(map(str, sorted(s))) for s in r['pat']),
                                                          ','.join('&'.join(act(a) for a in al) if al else '-' for al in r['acts']), con(r)) for r in p['rules']) for p in prog)
 
@@ -71,6 +74,8 @@ def compile_action(rule, classes):
             elif a[0] == 'A': bc += [OP['PUSH_SHORT'], (a[1] >> 8) & 255, a[1] & 255, OP['ATTR_SET'], SLAT_ADVX]
             elif a[0] == 'X': bc += [OP['PUSH_SHORT'], (a[1] >> 8) & 255, a[1] & 255, OP['ATTR_SET'], SLAT_SHIFTX]
             elif a[0] == 'Y': bc += [OP['PUSH_SHORT'], (a[1] >> 8) & 255, a[1] & 255, OP['ATTR_SET'], SLAT_SHIFTY]
+            elif a[0] == 'C': bc += [OP['PUT_COPY'], a[1] & 255]
+            elif a[0] == 'U': bc += [OP['PUSH_SHORT'], (a[2] >> 8) & 255, a[2] & 255, OP['IATTR_SET'], SLAT_USER, a[1]]
             elif a[0] == 'T': bc += [OP['PUSH_BYTE'], a[1] & 255, OP['ATTR_SET_SLOT'], SLAT_ATTTO]
             elif a[0] == 'P': bc += [OP['PUSH_SHORT'], (a[1] >> 8) & 255, a[1] & 255, OP['ATTR_SET'], SLAT_ATTX, OP['PUSH_SHORT'], (a[2] >> 8) & 255, a[2] & 255, OP['ATTR_SET'], SLAT_ATTY]
             elif a[0] == 'W': bc += [OP['PUSH_SHORT'], (a[1] >> 8) & 255, a[1] & 255, OP['ATTR_SET'], SLAT_WITHX, OP['PUSH_SHORT'], (a[2] >> 8) & 255, a[2] & 255, OP['ATTR_SET'], SLAT_WITHY]
@@ -90,8 +95,10 @@ def compile_constraint(rule):
     c = rule.get('con')
     if not c:
         return b''
-    item, op, val = c
-    block = [OP['PUSH_SLOT_ATTR'], SLAT_ADVX, 0, OP['PUSH_SHORT'], (val >> 8) & 255, val & 255, {'l': OP['LESS'], 'g': OP['GTR'], 'e': OP['EQUAL']}[op]]
+    item, op, val = c[0], c[1], c[2]
+    user = c[3] if len(c) > 3 else None
+    push = [OP['PUSH_SLOT_ATTR'], SLAT_ADVX, 0] if user is None else [OP['PUSH_ISLOT_ATTR'], SLAT_USER, 0, user]
+    block = push + [OP['PUSH_SHORT'], (val >> 8) & 255, val & 255, {'l': OP['LESS'], 'g': OP['GTR'], 'e': OP['EQUAL']}[op]]
     return bytes([OP['CNTXT_ITEM'], (item - rule['pre']) & 255, len(block)] + block + [OP['POP_RET']])
 
 
@@ -190,7 +197,7 @@ def compile_silf(prog, max_glyph, n_subst=None):
         for r in p['rules']:
             compile_action(r, classes)
     fixed = struct.pack('>HHH', max_glyph, 0, 0) + bytes([npass, 0, n_subst, npass, 0xFF, 0, 2, 8, 0, 1, 2, 3, 0, 0])
-    fixed += struct.pack('>HBBBB', 0, 0, 0, 1, 0) + bytes(3) + bytes([0]) + bytes([0]) + bytes([0]) + struct.pack('>H', 0)
+    fixed += struct.pack('>HBBBB', 0, NUM_USER, 0, 1, 0) + bytes(3) + bytes([0]) + bytes([0]) + bytes([0]) + struct.pack('>H', 0)
     # fixed ends with lbGID; then oPasses[npass+1], pseudo header, class map, passes
     pseudo = struct.pack('>HHHH', 0, 0, 0, 0)
     cmap = classes.table()
